@@ -39,6 +39,7 @@ func Run(ctx *vrun.Ctx, prop string) error {
 			{Name: "deliver3", N: 3, Works: "{1,2}", Flaws: allFlaws, Graph: true, MaxPaths: 1600, Catalogue: true},
 			{Name: "deliver4", N: 4, Works: "{1}", Flaws: allFlaws, Graph: true, MaxPaths: 1200, Catalogue: true},
 			{Name: "hdrfirst3", N: 3, Works: "{1}", Flaws: `{"sanity","bcontext","connect"}`, Headers: true, Graph: true, MaxPaths: 1500, Catalogue: true},
+			{Name: "deliver3b", N: 3, Works: "{1}", Flaws: allFlaws, Graph: true, MaxPaths: 1200, Catalogue: true, BIP34: true},
 		}
 		if ctx.Thorough {
 			models = []ModelCfg{
@@ -46,6 +47,8 @@ func Run(ctx *vrun.Ctx, prop string) error {
 				{Name: "deliver4", N: 4, Works: "{1,2}", Flaws: allFlaws, Graph: true, MaxPaths: 200000, Catalogue: true},
 				{Name: "deliver5", N: 5, Works: "{1,2}", Flaws: allFlaws},
 				{Name: "hdrfirst3", N: 3, Works: "{1,2}", Flaws: allFlaws, Headers: true, Graph: true, MaxPaths: 150000, Catalogue: true},
+				{Name: "deliver3b", N: 3, Works: "{1,2}", Flaws: allFlaws, Graph: true, Catalogue: true, BIP34: true},
+				{Name: "hdrfirst3b", N: 3, Works: "{1}", Flaws: allFlaws, Headers: true, Graph: true, MaxPaths: 60000, Catalogue: true, BIP34: true},
 			}
 		}
 	case "C03":
@@ -146,6 +149,9 @@ func Run(ctx *vrun.Ctx, prop string) error {
 	}
 	if os.Getenv("VERIF_SKIP_MODELS") != "" { // development aid: only the auxiliary specs of the property
 		return nil
+	}
+	if !ctx.Thorough {
+		Prefetch(ctx, models, 3, 25*time.Minute)
 	}
 	for _, m := range models {
 		if err := RunModel(ctx, prop, m, 25*time.Minute); err != nil {
